@@ -35,7 +35,8 @@ ThJoined == /\ Ev.e = "Joined"
 PCtor == /\ Ev.e = "ProcCtor" /\ Ev.tid \in live /\ owner[Ev.proc] = -1
          /\ owner' = [owner EXCEPT ![Ev.proc] = Ev.tid] /\ Keep(<<memo, nhit, live, lock, nuse, pcre, pproc>>)
 \* the process-lifetime processor, constructed (ProcCtor) by whichever thread creates the first polynomial and then declared shared: it is never a thread's own
-PShared == /\ Ev.e = "ProcShared" /\ owner[Ev.proc] = Ev.tid
+\* (SharedInit.tla: there is exactly one, however many threads create their first polynomial at the same moment)
+PShared == /\ Ev.e = "ProcShared" /\ owner[Ev.proc] = Ev.tid /\ \A p \in ProcIds : owner[p] # Shared
            /\ owner' = [owner EXCEPT ![Ev.proc] = Shared] /\ Keep(<<memo, nhit, live, lock, nuse, pcre, pproc>>)
 PDtor == /\ Ev.e = "ProcDtor" /\ owner[Ev.proc] = Ev.tid                           \* destroyed by its own thread, at that thread's exit
          /\ owner' = [owner EXCEPT ![Ev.proc] = -1] /\ Keep(<<memo, nhit, live, lock, nuse, pcre, pproc>>)
